@@ -864,7 +864,54 @@ static void cfg_init_defaults(cfg_t *cfg)
 	}
 }
 
+static cfg_value_t *cfg_setopt_value(cfg_t *cfg, cfg_opt_t *opt, const char *value);
+
 DLLIMPORT cfg_value_t *cfg_setopt(cfg_t *cfg, cfg_opt_t *opt, const char *value)
+{
+	cfg_opt_t old;
+	cfg_value_t *val;
+
+	if (!cfg || !opt) {
+		errno = EINVAL;
+		return NULL;
+	}
+
+	if (opt->simple_value.ptr || opt->type == CFGT_SEC)
+		return cfg_setopt_value(cfg, opt, value);
+
+	/*
+	 * Keep the values that are about to be replaced (defaults, or
+	 * the old values on '=') until the new value has been accepted.
+	 */
+	old = *opt;
+	if (is_set(CFGF_RESET, opt->flags)) {
+		opt->values = NULL;
+		opt->nvalues = 0;
+		opt->flags &= ~CFGF_RESET;
+	}
+
+	val = cfg_setopt_value(cfg, opt, value);
+	if (val) {
+		if (is_set(CFGF_RESET, old.flags))
+			cfg_free_value(&old);
+		return val;
+	}
+
+	/* refused: drop the empty slot, if one was made, and restore */
+	if (opt->nvalues > (is_set(CFGF_RESET, old.flags) ? 0 : old.nvalues))
+		free(opt->values[--opt->nvalues]);
+	if (is_set(CFGF_RESET, old.flags)) {
+		free(opt->values);
+		opt->values = old.values;
+		opt->nvalues = old.nvalues;
+	}
+	opt->flags &= ~(CFGF_RESET | CFGF_MODIFIED);
+	opt->flags |= old.flags & (CFGF_RESET | CFGF_MODIFIED);
+
+	return NULL;
+}
+
+static cfg_value_t *cfg_setopt_value(cfg_t *cfg, cfg_opt_t *opt, const char *value)
 {
 	cfg_value_t *val = NULL;
 	int b;
